@@ -133,10 +133,10 @@ package retrypolicy
 //@   let ex := (e.maxRetries != -1 && fa > e.maxRetries) || (e.maxDuration != 0 && el > e.maxDuration)
 //@   let ab := abortableOf(e, result.Result, result.Error)
 //@   let allows := e.maxRetries == -1 || e.maxRetries > 0
-//@   ensures [C02.count] e.failedAttempts == fa && e.retriesExceeded == ex
+//@   ensures [C02.count+C01.retry.spent_flag] e.failedAttempts == fa && e.retriesExceeded == ex
 //@   ensures [C02.done] result_0 != nil && result_0.Done == (ab || ex || !allows)
-//@   ensures [C02.exceeded_error] ex && !e.returnLastFailure ==> typeis(result_0.Error, ExceededError) && result_0.Error.(ExceededError).LastResult == result.Result && result_0.Error.(ExceededError).LastError == result.Error && result_0.Done && !result_0.Success && !result_0.SuccessAll
-//@   ensures [C02.outcome_unchanged] !(ex && !e.returnLastFailure) ==> result_0.Result == result.Result && result_0.Error == result.Error && !result_0.Success && !result_0.SuccessAll
+//@   ensures [C02.exceeded_error+C01.retry.exceeded_outcome] ex && !e.returnLastFailure ==> typeis(result_0.Error, ExceededError) && result_0.Error.(ExceededError).LastResult == result.Result && result_0.Error.(ExceededError).LastError == result.Error && result_0.Done && !result_0.Success && !result_0.SuccessAll
+//@   ensures [C02.outcome_unchanged+C01.retry.outcome_unchanged] !(ex && !e.returnLastFailure) ==> result_0.Result == result.Result && result_0.Error == result.Error && !result_0.Success && !result_0.SuccessAll
 //@   ensures [C16.retry.abort] (ab && e.onAbort != nil ==> ncalls(e.onAbort) == 1) && (!ab ==> ncalls(e.onAbort) == 0)
 //@   ensures [C16.retry.exceeded] (ex && !ab && e.onRetriesExceeded != nil ==> ncalls(e.onRetriesExceeded) == 1) && (!(ex && !ab) ==> ncalls(e.onRetriesExceeded) == 0)
 //@   ensures [C16.retry.policy_failure] ncalls(e.onRetry) == 0 && ncalls(e.onRetryScheduled) == 0
